@@ -8,6 +8,7 @@ import NmVerif.NN.LinearTensordot
 import NmVerif.NN.NormLemmas
 import NmVerif.NN.BatchNormLemmas
 import NmVerif.NN.AxisLemmas
+import NmVerif.NN.ChanLemmas
 /-
   C17 — neural-network routines equal their reference (PyTorch) definitions.
 
@@ -500,6 +501,44 @@ example :
     let b : Arr Int := ⟨[3], fun _ => 1⟩
     (pairwiseDistance (· + ·) (· - ·) (fun t => t * t) id 0 a b false).map (fun v => (v.shape, (allIdx v.shape).map v.get))
       = some ([2], [some ((0-1)*(0-1) + (1-1)*(1-1) + (2-1)*(2-1)), some ((3-1)*(3-1) + (4-1)*(4-1) + (5-1)*(5-1))]) := by decide
+
+/-- **instance_norm** (1d / 2d / 3d are `ND = |sp|` = 1, 2, 3; the statement holds for every number of spatial axes):
+    input `(N, C) ++ sp`, weight and bias `(C)`.  The statistics of the element `[n, c] ++ q` are taken over exactly the
+    spatial block of its own sample and channel — the `∏ sp` elements `x[n, c, r]`, `r` over all of `sp` in row-major
+    order — and the affine parameters are those of channel `c` (moved to axis `−ND−1` by `atleast_nd` + `moveaxis`):
+    `((x[n,c,q] − μ) / sqrt(V/|sp| + eps)) · w[c] + b[c]`. -/
+theorem instance_norm_eq_def {α : Type} (add sub mul div : α → α → α) (sqabs sqrt : α → α) (divn : α → Nat → α) (eps : α)
+    (x w b : Arr α) (N C : Nat) (sp : Shape) (hx : x.shape = [N, C] ++ sp) (hw : w.shape = [C]) (hb : b.shape = [C])
+    (hp : Pos ([N, C] ++ sp)) :
+    ∃ v, instanceNorm add sub mul div sqabs sqrt divn eps x w b sp.length = some v ∧ v.shape = [N, C] ++ sp ∧
+      ∀ n c q, n < N → c < C → InShape q sp →
+        (v.get ([n, c] ++ q) = (normAt add sub div sqabs sqrt divn eps x.get ((allIdx sp).map ([n, c] ++ ·)) ([n, c] ++ q)).map
+          fun y => add (mul y (w.get [c])) (b.get [c])) ∧
+        ∃ y, v.get ([n, c] ++ q) = some y := by
+  obtain ⟨w', hw1, hw2, hw3⟩ := chanParam_spec w C sp.length hw
+  obtain ⟨b', hb1, hb2, hb3⟩ := chanParam_spec b C sp.length hb
+  obtain ⟨nrm, hn1, hn2, hn3⟩ := normCore_trailing add sub div sqabs sqrt divn eps x [N, C] sp hx hp
+  obtain ⟨pm, hm1, hm2, hm3⟩ := bin_chanN mul nrm w' (fun c => w.get [c]) N C sp hp hn2 hw2 hw3
+  obtain ⟨v, ha1, ha2, ha3⟩ := bin_chanN add pm b' (fun c => b.get [c]) N C sp hp hm2 hb2 hb3
+  refine ⟨v, by simp only [instanceNorm, hw1, hb1, hn1, hm1, Option.bind_some]; exact ha1, ha2, fun n c q hn hc hq => ?_⟩
+  have hnc : InShape [n, c] [N, C] := by simp [InShape]; exact ⟨hn, hc⟩
+  have hval : v.get ([n, c] ++ q) = (normAt add sub div sqabs sqrt divn eps x.get ((allIdx sp).map ([n, c] ++ ·)) ([n, c] ++ q)).map
+      fun y => add (mul y (w.get [c])) (b.get [c]) := by
+    rw [ha3 n c q hn hc hq, hm3 n c q hn hc hq, hn3 [n, c] q hnc hq, Option.map_map]
+    rfl
+  refine ⟨hval, ?_⟩
+  have hne : (allIdx sp).map ([n, c] ++ ·) ≠ [] := by
+    have hq' := (NmVerif.Props.C01.mem_allIdx_iff sp q).2 hq
+    intro h
+    have := List.mem_map_of_mem (f := ([n, c] ++ ·)) hq'
+    rw [h] at this
+    simp at this
+  obtain ⟨y, hy⟩ := normAt_defined add sub div sqabs sqrt divn eps x.get ([n, c] ++ q) hne
+  exact ⟨_, by rw [hval, hy]; rfl⟩
+
+/-- non-vacuity (2d): input (2,3,2,2), element `[1,2] ++ [0,1]` takes its statistics over the four `[1,2,r₀,r₁]` -/
+example : Pos ([2, 3] ++ [2, 2]) ∧ InShape [0, 1] [2, 2] ∧
+    (allIdx [2, 2]).map ([1, 2] ++ ·) = [[1, 2, 0, 0], [1, 2, 0, 1], [1, 2, 1, 0], [1, 2, 1, 1]] := by decide
 
 /-! ## convolution -/
 
